@@ -1607,3 +1607,152 @@ run_plan(const Plan &p, const RunOpts &o)
         g_jmp_armed = 0;
         return res;
 }
+
+
+// ------------------------------------------------------------------ isolated execution (fork per run)
+#include <sys/wait.h>
+namespace {
+void
+put_u64(std::string &b, uint64_t v)
+{
+        b.append((const char *) &v, 8);
+}
+void
+put_str(std::string &b, const std::string &x)
+{
+        put_u64(b, x.size());
+        b.append(x);
+}
+struct Rd {
+        const std::string &b;
+        size_t pos = 0;
+        bool ok = true;
+        uint64_t u64()
+        {
+                if (pos + 8 > b.size()) {
+                        ok = false;
+                        return 0;
+                }
+                uint64_t v;
+                memcpy(&v, b.data() + pos, 8);
+                pos += 8;
+                return v;
+        }
+        std::string str()
+        {
+                uint64_t n = u64();
+                if (!ok || pos + n > b.size()) {
+                        ok = false;
+                        return "";
+                }
+                std::string x = b.substr(pos, n);
+                pos += n;
+                return x;
+        }
+};
+} // namespace
+
+RunResult
+run_plan_isolated(const Plan &p, const RunOpts &o)
+{
+        int fd[2];
+        if (pipe(fd) != 0)
+                return run_plan(p, o);
+        fflush(stdout);
+        fflush(stderr);
+        pid_t pid = fork();
+        if (pid == 0) {
+                close(fd[0]);
+                RunResult r = run_plan(p, o);
+                std::string b;
+                put_u64(b, r.log_hash);
+                put_u64(b, r.suffix_hash);
+                put_u64(b, r.crashed);
+                put_u64(b, r.task_hash.size());
+                for (auto x : r.task_hash)
+                        put_u64(b, x);
+                put_u64(b, r.task_hash_user.size());
+                for (auto x : r.task_hash_user)
+                        put_u64(b, x);
+                for (int k = 0; k < CT_N; k++)
+                        put_u64(b, r.ctr[k]);
+                put_u64(b, r.states.size());
+                for (auto x : r.states)
+                        put_u64(b, x);
+                put_u64(b, r.viols.size());
+                for (auto &v : r.viols) {
+                        put_str(b, v.prop);
+                        put_str(b, v.oracle);
+                        put_str(b, v.detail);
+                        put_u64(b, (uint64_t) (int64_t) v.op_index);
+                        put_str(b, v.key);
+                }
+                put_u64(b, r.log.size());
+                for (auto &l : r.log)
+                        put_str(b, l);
+                size_t off = 0;
+                while (off < b.size()) {
+                        ssize_t w = write(fd[1], b.data() + off, b.size() - off);
+                        if (w <= 0)
+                                break;
+                        off += (size_t) w;
+                }
+                close(fd[1]);
+                _exit(0);
+        }
+        close(fd[1]);
+        std::string b;
+        char buf[65536];
+        for (;;) {
+                ssize_t n = read(fd[0], buf, sizeof buf);
+                if (n <= 0)
+                        break;
+                b.append(buf, (size_t) n);
+        }
+        close(fd[0]);
+        int st = 0;
+        waitpid(pid, &st, 0);
+        RunResult r;
+        Rd rd{ b };
+        r.log_hash = rd.u64();
+        r.suffix_hash = rd.u64();
+        r.crashed = rd.u64() != 0;
+        uint64_t n = rd.u64();
+        for (uint64_t i = 0; i < n && rd.ok; i++)
+                r.task_hash.push_back(rd.u64());
+        n = rd.u64();
+        for (uint64_t i = 0; i < n && rd.ok; i++)
+                r.task_hash_user.push_back(rd.u64());
+        for (int k = 0; k < CT_N; k++)
+                r.ctr[k] = rd.u64();
+        n = rd.u64();
+        for (uint64_t i = 0; i < n && rd.ok; i++)
+                r.states.insert(rd.u64());
+        n = rd.u64();
+        for (uint64_t i = 0; i < n && rd.ok; i++) {
+                Violation v;
+                v.prop = rd.str();
+                v.oracle = rd.str();
+                v.detail = rd.str();
+                v.op_index = (int) (int64_t) rd.u64();
+                v.key = rd.str();
+                r.viols.push_back(v);
+        }
+        n = rd.u64();
+        for (uint64_t i = 0; i < n && rd.ok; i++)
+                r.log.push_back(rd.str());
+        if (!rd.ok || !WIFEXITED(st) || WEXITSTATUS(st) != 0) {
+                // the child died outside the simulator's own fault handling
+                r = RunResult();
+                r.crashed = true;
+                r.task_hash.assign(p.task_cfg.size(), 0);
+                r.task_hash_user.assign(p.task_cfg.size(), 0);
+                Violation v;
+                v.prop = p.prop;
+                v.oracle = "crash";
+                v.detail = "the process executing the run died";
+                v.key = "crash;fn=process";
+                r.viols.push_back(v);
+        }
+        return r;
+}
